@@ -2069,3 +2069,23 @@ V('C14', 'f18-reverted', BLK, "        if not self._dest.circuit.is_ready():\n",
   note="pre-fix tree: the gate asks the current circuit, not the destination's")
 V('C14', 'event-etype-not-posonly', ADD, "    def event(self, etype: str|block.EventType, /, **data) -> Any:\n",
   "    def event(self, etype: str|block.EventType, **data) -> Any:\n", 'R14.4', note="seed C14-10")
+
+# ----------------------------------------------------------------------------- defect F19 (C08 / C18)
+V('C08', 'f19-reverted', ADD, """    def stop(self) -> None:
+        # the main task ends with stop() even if stop_async() is disabled (stop_timeout <= 0)
+        if self._mtask is not None:
+            self._mtask.cancel()
+        super().stop()
+
+""", "", 'R08.13', note="pre-fix tree: with stop_timeout=0 the main task outlives the simulation")
+V('C08', 'ctrl-task-no-sentinel', S2, "        self._queue.put_nowait(None)    # stop serving\n        super().stop()\n",
+  "        if self._stop_data is None:\n            self._queue.put_nowait(None)    # stop serving\n        super().stop()\n", 'R08.13')
+V('C08', 'not-finalized-fast-path', SIM, """        if self._error:
+            # there is an even bigger problem
+            raise EdzedInvalidState("The circuit was shut down")
+        if self._finalized:""", """        if not self._finalized:
+            return
+        if self._error:
+            # there is an even bigger problem
+            raise EdzedInvalidState("The circuit was shut down")
+        if self._finalized:""", 'R08.12', note="seed C08-10")
